@@ -575,6 +575,14 @@ fn factored_code_delta(prev_offset: u32, offset: u32, factor: u8) -> Result<u32>
     }
     let delta = offset - prev_offset;
     let factor = u32::from(factor);
+    if factor == 0 {
+        // Only a zero delta can be expressed with a zero factor.
+        return if delta == 0 {
+            Ok(0)
+        } else {
+            Err(Error::InvalidFrameCodeOffset(offset))
+        };
+    }
     let factored_delta = delta / factor;
     if delta != factored_delta * factor {
         return Err(Error::InvalidFrameCodeOffset(offset));
@@ -584,7 +592,17 @@ fn factored_code_delta(prev_offset: u32, offset: u32, factor: u8) -> Result<u32>
 
 fn factored_data_offset(offset: i32, factor: i8) -> Result<i32> {
     let factor = i32::from(factor);
-    let factored_offset = offset / factor;
+    if factor == 0 {
+        // Only a zero offset can be expressed with a zero factor.
+        return if offset == 0 {
+            Ok(0)
+        } else {
+            Err(Error::InvalidFrameDataOffset(offset))
+        };
+    }
+    let factored_offset = offset
+        .checked_div(factor)
+        .ok_or(Error::InvalidFrameDataOffset(offset))?;
     if offset != factored_offset * factor {
         return Err(Error::InvalidFrameDataOffset(offset));
     }
